@@ -214,14 +214,14 @@ package lfs
 // whatever instant the process dies at, the destination holds either what it
 // held before or the complete content of the source.
 //@ func CopyFileContents
-//@   props C04 C09
+//@   props C04 C09 C03
 //@   requires @inv cfg != nil
 //@   requires @C09 isobj(dst) ==> fexists(src) && hexsha(fdata(src)) == oidof(dst)
 //@   modifies fresh, key F:github.com/git-lfs/git-lfs/v3/fs.Filesystem.tmpdir, ghost fpath, ghost rrest, ghost wbuf, ghost fexists[q | q == dst || (isauxdir(path_dir(q)) && !old(fexists(q)))], ghost fdata[q | q == dst || (isauxdir(path_dir(q)) && !old(fexists(q)))]
 //@   ensures result == nil && old(fexists(src)) && (isobj(dst) || old(fexists(dst))) ==> fexists(dst) && fdata(dst) == old(fdata(src))
 //@   ensures result != nil && isobj(dst) ==> fexists(dst) == old(fexists(dst)) && fdata(dst) == old(fdata(dst))
 //@ func LinkOrCopy
-//@   props C04 C09
+//@   props C04 C09 C03
 //@   requires @inv cfg != nil
 //@   requires @C09 isobj(dst) ==> fexists(src) && hexsha(fdata(src)) == oidof(dst)
 //@   modifies fresh, key F:github.com/git-lfs/git-lfs/v3/fs.Filesystem.tmpdir, ghost fpath, ghost rrest, ghost wbuf, ghost fexists[q | q == dst || (isauxdir(path_dir(q)) && !old(fexists(q)))], ghost fdata[q | q == dst || (isauxdir(path_dir(q)) && !old(fexists(q)))]
